@@ -573,7 +573,9 @@ func (v *Verifier) runCase(p *packages.Package, fc *FuncContract, decl *ast.Func
 func (v *Verifier) checkAssertMarkers() {
 	for _, c := range v.fc.Clauses {
 		if c.Kind == "assert" && !c.hit {
-			v.obligs = append(v.obligs, &Oblig{Name: v.fnName + "#subset:assert-marker", Class: "subset", Func: v.fnName, Goal: TFalse, Desc: "ghost assertion marker not found in the function body: " + c.Marker, Verdict: "error", Props: v.fc.Props})
+			// a proof cut whose statement no longer exists is dropped (the proof then has to
+			// go through without it); reported in the evidence, not as a violation
+			v.notes = append(v.notes, "ghost assertion marker not found in "+v.fnName+": "+c.Marker)
 		}
 	}
 }
